@@ -65,6 +65,12 @@ func (e *c17Env) trace() string {
 	return e.desc + "\n" + strings.Join(e.log, "\n")
 }
 
+func (e *c17Env) setScript(s []ref.StubBehaviour) {
+	e.mu.Lock()
+	e.script = s
+	e.mu.Unlock()
+}
+
 func c17Start(c *fw.Ctx, i int, static bool, pushTargets []string) *c17Env {
 	root := filepath.Join(c.Scratch, fmt.Sprintf("c17-%d", i))
 	os.MkdirAll(root, 0755)
@@ -401,7 +407,7 @@ func c17PullRetry(c *fw.Ctx, i int, retry int) {
 	if retry >= 0 {
 		refuse = 100
 	}
-	e.script = c17Refuse(refuse)
+	e.setScript(c17Refuse(refuse))
 	x := e.sub()
 	defer e.unsub(x)
 	a := e.apiStart(retry, -1)
@@ -549,7 +555,7 @@ func c17PullStopInFlight(c *fw.Ctx, i int, how string) {
 	c.Describe("%s", e.desc)
 	c.Cell("pull/stop-in-flight/%s", how)
 	hold := make(chan struct{})
-	e.script = []ref.StubBehaviour{{WithholdStatus: hold}}
+	e.setScript([]ref.StubBehaviour{{WithholdStatus: hold}})
 	x := e.sub()
 	defer e.unsub(x)
 	a := e.apiStart(0, -1)
@@ -614,7 +620,7 @@ func c17PullOvertaken(c *fw.Ctx, i int, static bool) {
 	c.Describe("%s", e.desc)
 	c.Cell("pull/overtaken-then-free/static=%v", static)
 	hold := make(chan struct{})
-	e.script = []ref.StubBehaviour{{WithholdStatus: hold}}
+	e.setScript([]ref.StubBehaviour{{WithholdStatus: hold}})
 	x := e.sub()
 	defer e.unsub(x)
 	if !static {
@@ -737,7 +743,7 @@ func c17PullSlowAlone(c *fw.Ctx, i int) {
 	e.desc = "pull towards a silent origin with nobody else on the stream (retry for ever)"
 	c.Describe("%s", e.desc)
 	c.Cell("pull/slow-origin-alone")
-	e.script = []ref.StubBehaviour{{Hang: true}, {Hang: true}}
+	e.setScript([]ref.StubBehaviour{{Hang: true}, {Hang: true}})
 	if a := e.apiStart(-1, -1); !a.Ok {
 		c.Violate("pull-api/start-refused", "start_relay_pull on an idle stream answered failure\n"+e.trace(), nil)
 		return
@@ -818,7 +824,7 @@ func c17PullRandom(c *fw.Ctx, i int) {
 			script = append(script, ref.StubBehaviour{})
 		}
 	}
-	e.script = script
+	e.setScript(script)
 	e.desc = fmt.Sprintf("seeded pull program static=%v", static)
 	c.Cell("pull/program/static=%v", static)
 	var subs []*srv.HttpSub
